@@ -80,36 +80,75 @@ Proof. intro H. destruct (crash_world w r n H) as (-> & _). reflexivity. Qed.
 (* ------------------------------------------------------------- example *)
 
 (* client 1 creates a session, stores a value, logs in; 700 s later (ID expiry
-   600 s, session expiry 1 h, grace 60 s, cache size 1) its next request rotates
+   600 s, session expiry 1 h, grace 60 s, cache size 2) its next request rotates
    the ID and the process stops after n persistence calls *)
-Definition cX : cfg := mkCfg 3600000000000 600000000000 60000000000 max64 1 1 true false.
+Definition cX : cfg := mkCfg 3600000000000 600000000000 60000000000 max64 2 1 true false.
 Definition rqx (c : N) (sc : list sop) : hop := HReq (mkReqStep c PJar true (V4 1 2 3 4 5) 7 sc [] [] None).
 Definition hX : list hop := [rqx 1 [SSet 1 2; SLogIn (5%N, 1%N) false]; HWait 700000000000].
-Definition wX : world := reach cX hX.
+Definition wX : world := Eval vm_compute in reach cX hX.
+Lemma wX_eq : wX = reach cX hX.
+Proof. vm_compute. reflexivity. Qed.
 Definition r1X (n : nat) : reqstep := mkReqStep 1 PJar true (V4 1 2 3 4 5) 7 [] [] [] (Some n).
 Definition r2X : reqstep := mkReqStep 1 PJar false (V4 1 2 3 4 5) 7 [] [] [] None.
 
 Lemma rot_crash_ex n : rot_crash wX (r1X n) n (KGen 1) [(1%N, 2%N)] (Some 5%N).
 Proof.
-  constructor; try reflexivity.
-  - apply LiveHist8.reach_sess_inv; repeat constructor.
+  apply mkRC.
+  - rewrite wX_eq. apply LiveHist8.reach_sess_inv; [repeat (constructor; try exact I; try reflexivity) | repeat (constructor; try exact I; try reflexivity)].
+  - reflexivity.
+  - reflexivity.
+  - reflexivity.
+  - vm_compute. reflexivity.
   - split.
-    + eexists. split; [reflexivity|]. split; reflexivity.
-    + intros o ob Hl Ho. vm_compute in Hl. injection Hl as <-. vm_compute in Ho. injection Ho as <-. split; reflexivity.
-  - intros d k' [].
+    + eexists. split; [vm_compute; reflexivity|]. repeat split; vm_compute; reflexivity.
+    + intros o ob Hl Ho. vm_compute in Hl. injection Hl as <-. vm_compute in Ho. injection Ho as <-.
+      repeat split; vm_compute; reflexivity.
+  - vm_compute. reflexivity.
+  - vm_compute. reflexivity.
+  - intros d k' H. vm_compute in H. destruct H.
 Qed.
 
+Definition outcome (n : nat) :=
+  let w' := fst (step wX (HReq (r1X n))) in
+  (ob_res (snd (step wX (HReq (r1X n)))), pres w' r2X, lookup (store (w_st w')) (KGen 1),
+   ob_res (snd (step w' (HReq r2X))),
+   option_map (fun x => (dat (snd x), uid (snd x))) (ob_start (snd (step w' (HReq r2X))))).
+
 Example restart_ex :
-  Forall (fun n =>
-    let w' := fst (step wX (HReq (r1X n))) in
-    ob_res (snd (step wX (HReq (r1X n)))) = RCrashed /\
-    pres w' r2X = CKey (KGen 1) /\
-    (forall rk, lookup (store (w_st w')) (KGen 1) = Some rk ->
-       probe_ok (conf (w_st wX)) (now (w_st wX)) (probe_q (KGen 1) r2X) rk) /\
-    ob_res (snd (step w' (HReq r2X))) = RSess /\
-    option_map (fun x => (dat (snd x), uid (snd x))) (ob_start (snd (step w' (HReq r2X)))) = Some ([(1%N, 2%N)], Some 5%N))
+  Forall (fun n => exists rk,
+    outcome n = (RCrashed, CKey (KGen 1), Some rk, RSess, Some ([(1%N, 2%N)], Some 5%N)) /\
+    probe_ok (conf (w_st wX)) (now (w_st wX)) (probe_q (KGen 1) r2X) rk)
   [0; 1; 2; 3; 4]%nat.
 Proof.
-  repeat constructor; try reflexivity;
-    (intros rk Hl; vm_compute in Hl; injection Hl as <-; split; [reflexivity | intros _; reflexivity]).
+  repeat (apply Forall_cons;
+    [eexists; split; [vm_compute; reflexivity | split; [vm_compute; reflexivity | intros [H|H]; vm_compute in H; try discriminate H; vm_compute; reflexivity]] |]).
+  apply Forall_nil.
+Qed.
+
+(* --------------------------------------------------- the definitions, unfolded *)
+
+Lemma probe_ok_meaning c t q rk :
+  probe_ok c t q rk <->
+  (negb (c_expiry c <=? since (r_access rk) t) && ip_ok (c_acceptip c) (r_ip rk) (q_addr q)
+   && ua_ok (c_acceptua c) (r_ua rk) (q_ua q) = true /\
+   ((r_ref rk <> None \/ since (r_created rk) t < c_idexpiry c) ->
+    since (r_created rk) t < sat_add (c_idexpiry c) (c_grace c))).
+Proof.
+  unfold probe_ok, rec_valid, isref. rewrite !Z.leb_gt.
+  assert (E : (match r_ref rk with Some _ => true | None => false end) = true <-> r_ref rk <> None).
+  { destruct (r_ref rk); split; intro H; try reflexivity; try discriminate; congruence. }
+  rewrite E. tauto.
+Qed.
+
+Lemma rot_crash_meaning w r n k D U :
+  rot_crash w r n k D U <->
+  sess_inv (w_st w) /\ rq_plan r = [] /\ rq_crash r = Some n /\ rq_script r = [] /\
+  pres w r = CKey k /\ presented (w_st w) k D U /\
+  start_rotates (req_s1 w r) (req_q w r) = true /\
+  0 < c_grace (conf (w_st w)) /\
+  (forall d k', In (d, k') (pending (w_st w)) -> now (w_st w) < d).
+Proof.
+  split.
+  - intros [H1 H2 H3 H4 H5 H6 H7 H8 H9]. exact (conj H1 (conj H2 (conj H3 (conj H4 (conj H5 (conj H6 (conj H7 (conj H8 H9)))))))).
+  - intros (H1&H2&H3&H4&H5&H6&H7&H8&H9). exact (mkRC _ _ _ _ _ _ H1 H2 H3 H4 H5 H6 H7 H8 H9).
 Qed.
